@@ -719,8 +719,9 @@ func genSeqPlan(rt *rapid.T) seqPlan {
 	classes := []string{clsTiny, clsTiny, clsTiny, clsTiny, clsTiny, clsTiny, clsTiny, clsTiny, clsTiny, clsTiny, clsTiny, clsTiny,
 		cls4k, cls4k, cls16k, cls16k, cls16k, cls64k, cls64k, cls100k}
 	if vk.Thorough() {
-		bigClasses = append(bigClasses, clsMiB)
-		classes = append(classes, clsMiB)
+		// the MiB class is expensive (generation, transfer, comparison): ~1 RPC in 40, 1 forced block in 9
+		bigClasses = append(append(bigClasses, bigClasses...), clsMiB)
+		classes = append(append(classes, classes...), clsMiB)
 	}
 	cost := func(class string) int {
 		switch class {
